@@ -82,7 +82,13 @@ class Perturber:
     sync_p / sync_sleep: CALL events whose callee is a method of a synchronisation object (queue, future, event,
     lock) - the points where threads exchange state - get their own probability and (longer) delay, the way
     systematic schedulers preempt at synchronisation operations.
-    slow: {code name: (p, max_sleep)} - long delays in one closure, e.g. a slow disk under `_stream_files`."""
+    slow: {code name or '@role': (p, max_sleep)} - long delays in one closure or on every thread of one role, e.g. a slow
+    disk under the snapshot's producer thread ('@plain').
+    Thread roles are structural, not names: 'loop' = the thread that runs the operation's event loop (its name starts
+    with LOOP_PREFIX, given by the harness), 'pool<k>' = a worker of the k-th concurrent.futures executor seen by this
+    perturber (workers of one executor share a role; in replicat: the backend executor, the chunk producer's executor,
+    the loader and writer pools), 'plain<k>' = any other thread, numbered likewise.  victim: a role, or '!loop'."""
+    LOOP_PREFIX = 'vf-op'
 
     def __init__(self, seed, p=0.1, max_sleep=0.001, calls=True, sync_p=None, sync_sleep=0.0, slow=None, victim=None):
         self.rng = random.Random(seed)
@@ -104,10 +110,44 @@ class Perturber:
         self.last_event = time.monotonic()
         self.active = False
         self.line_seen = {}          # (code name, line) -> monotonic time last executed
+        self.roles = {}              # thread ident -> role
+        self.per_role = {}
+        self.groups = {}             # executor work queue id / thread ident -> role
+        self.codes_hit = set()
+
+    def role(self):
+        ident = threading.get_ident()
+        r = self.roles.get(ident)
+        if r is None:
+            t = threading.current_thread()
+            if t.name.startswith(self.LOOP_PREFIX):
+                r = 'loop'
+            else:
+                target = getattr(t, '_target', None)
+                args = getattr(t, '_args', None) or ()
+                with self.lock:
+                    if getattr(target, '__module__', '') == 'concurrent.futures.thread' and len(args) > 1:
+                        key, kind = id(args[1]), 'pool'           # the executor's work queue
+                    else:
+                        key, kind = ident, 'plain'
+                    r = self.groups.get(key)
+                    if r is None:
+                        r = self.groups[key] = f"{kind}{sum(1 for v in self.groups.values() if v.startswith(kind))}"
+            self.roles[ident] = r
+        return r
+
+    def is_victim(self):
+        if self.victim is None:
+            return True
+        r = self.role()
+        return r != 'loop' if self.victim == '!loop' else r == self.victim
 
     def _decide(self, code, sync=False):
+        role = self.role()
         with self.lock:
             self.events += 1
+            self.per_role[role] = self.per_role.get(role, 0) + 1
+            self.codes_hit.add(code)
             name = code.co_name
             if sync and self.sync_p is not None:
                 self.sync_events += 1
@@ -117,8 +157,9 @@ class Perturber:
                     self.yields += 1
                     return self.rng.random() * self.sync_sleep
                 return 0
-            if name in self.slow:
-                sp, sl = self.slow[name]
+            slow = self.slow.get(name) or self.slow.get('@' + role)
+            if slow:
+                sp, sl = slow
                 if self.rng.random() < sp:
                     self.per_code[name] = self.per_code.get(name, 0) + 1
                     self.yields += 1
@@ -147,7 +188,7 @@ class Perturber:
         # for `obj.method()` the interpreter reports the plain function and passes the object as arg0
         sync = self.sync_p is not None and (isinstance(arg0, self.sync_types)
                                             or isinstance(getattr(callable_, '__self__', None), self.sync_types))
-        if sync and self.victim is not None and not threading.current_thread().name.startswith(self.victim):
+        if sync and not self.is_victim():
             sync = False
         d = self._decide(code, sync)
         if d:
